@@ -780,6 +780,13 @@ func runStrScenario(sc strScenario) *strResult {
 					}
 				}
 			}
+			// likewise a close request or the open of a push-first stream right before the end: what
+			// their own goroutines still manage to do before the teardown is a race
+			for _, fr := range e.c2s {
+				if !strings.HasPrefix(fr.name, "u") && e.solo(fr.name) {
+					racy = true
+				}
+			}
 			e.mu.Unlock()
 			if racy {
 				ok = false
